@@ -177,6 +177,7 @@ TABLE['C07'] = {
 }
 TABLE['C04']['modules'].append('contracts.depfile')
 TABLE['C04']['modules'].append('contracts.regen')
+TABLE['C04']['modules'].append('contracts.dirnames')
 
 TABLE['C19'] = {
     'modules': ['contracts.scripts'],
